@@ -7,6 +7,7 @@ enclosing rule chains of ANY depth; `q : Quirks` is universally quantified where
 deviation flags play no role, `Quirks.spec`/`Quirks.asis` appear where they do.
 -/
 import RsassModel.Dest.Lemmas
+import RsassModel.Dest.Refine
 namespace C20
 open Dest
 variable {σ : Type}
@@ -202,5 +203,56 @@ theorem unrecognised_keyframes_prefixed :
 example : rootOf (emitTop Quirks.asis natOps [.rule 2 [.atrule 7 0 [.rule 3 [.decl 4 5]]]])
       = some [.atrule 7 0 [.rule 3 [.prop 4 5]]] := by
   rfl
+
+/-! ### Arbitrary trees: the output is the evaluation log -/
+
+/-- `bubble_preserves_order` — for EVERY program (arbitrary nesting of rules, nested-property
+blocks, @media, at-rules, @at-root, comments), every selector algebra, in the model with
+order-preserving at-rule frames, failed `Drop`s as errors and `@media`-in-`@media` kept nested
+(i.e. the specification without query merging): if the compilation succeeds, the flattened
+(at-rule path, selector, declaration/comment) sequence of the OUTPUT equals the EVALUATION LOG
+`logBody` — nothing lost, nothing added, source order, each entry under the selector and
+at-rule path the log assigns (bubbled through rules, `@at-root`/keyframes contexts applied). -/
+theorem bubble_preserves_order (q : Quirks) (hh : q.atRuleHoists = false) (hm : q.mediaInMediaNested = true)
+    (hs : q.closeSwallows = false) (ops : Ops σ) (p : List (Core σ)) (st : St σ)
+    (h : emitTop q ops p = .ok st) :
+    flatItems [] st.root = logBody q ops {} p [] ∧ st.stack = [] := by
+  obtain ⟨hv, hk⟩ := emitBody_refines q hh hm hs ops {} p {} st h
+  have hnil : st.stack = [] := by
+    cases hst : st.stack with
+    | nil => rfl
+    | cons f r => rw [hst] at hk; simp [skel] at hk
+  refine ⟨?_, hnil⟩
+  simpa [view, hnil, viewStack, skel, flatItems] using hv
+
+/-- the general form, from any state with any open frames (`Dest/Refine.lean`) -/
+theorem emit_refines_log (q : Quirks) (hh : q.atRuleHoists = false) (hm : q.mediaInMediaNested = true)
+    (hs : q.closeSwallows = false) (ops : Ops σ) (c : SelCtx σ) (b : List (Core σ)) (st st' : St σ)
+    (h : emitBody q ops c b st = .ok st') :
+    view st'.stack st'.root = view st.stack st.root ++ logBody q ops c b (skel st.stack) ∧
+      skel st'.stack = skel st.stack :=
+  emitBody_refines q hh hm hs ops c b st st' h
+
+/-- the mechanism behind it, for ANY frame stack: handing items up preserves the order of
+everything held (`Dest/View.lean`) -/
+theorem deliver_keeps_order (q : Quirks) (hh : q.atRuleHoists = false) (hm : q.mediaInMediaNested = true)
+    (ops : Ops σ) (stk : List (Frame σ)) (root its : List (Item σ)) (stk' : List (Frame σ)) (root' : List (Item σ))
+    (h : deliver q ops stk root its = .ok (stk', root')) :
+    view stk' root' = view stk root ++ flatItems (pathOf stk) its ∧ skel stk' = skel stk :=
+  deliver_preserves_order q hh hm ops stk root its stk' root' h
+
+/-- the hypotheses are met by a real configuration, and the conclusion is not vacuous:
+`2 { 9: 9; @media 3 { 4: 5; 6 { 7: 8 } 1: 1 } }` -/
+example : (match emitTop { mediaInMediaNested := true } natOps
+      [.rule 2 [.decl 9 9, .media 3 [.decl 4 5, .rule 6 [.decl 7 8], .decl 1 1]]] with
+    | .ok st => (flatItems [] st.root).map (fun e => (e.sel, e.item)) | .error _ => [])
+    = [(some 2, .prop 9 9), (some 2, .prop 4 5), (some 2006, .prop 7 8), (some 2, .prop 1 1)] := by rfl
+
+/-- REFUTATION for the as-is flag `atRuleHoists`: the same program under the code's behaviour
+emits `1: 1` BEFORE the nested rule `6` (its declarations are hoisted into one rule copy). -/
+theorem order_asis_refutation : (match emitTop Quirks.asis natOps
+      [.rule 2 [.decl 9 9, .media 3 [.decl 4 5, .rule 6 [.decl 7 8], .decl 1 1]]] with
+    | .ok st => (flatItems [] st.root).map (fun e => (e.sel, e.item)) | .error _ => [])
+    = [(some 2, .prop 9 9), (some 2, .prop 4 5), (some 2, .prop 1 1), (some 2006, .prop 7 8)] := by rfl
 
 end C20
